@@ -160,7 +160,7 @@ func (p c16) Run(c *core.Ctx, idx int) {
 	if idx%97 == 0 {
 		p.usesWhenOnContainer(c)
 	}
-	placement := []string{"when-container", "when-leaf", "when-leaf-list", "when-uses", "when-augment", "where-top", "where-nested", "filter", "when-edit"}[(idx/len(ts))%9]
+	placement := []string{"when-container", "when-leaf", "when-leaf-list", "when-uses", "when-augment", "where-top", "where-nested", "filter", "when-edit", "when-list"}[(idx/len(ts))%10]
 	ops := c16ops
 	if t.name == "boolean" {
 		ops = []string{"=", "!="}
@@ -175,6 +175,8 @@ func (p c16) Run(c *core.Ctx, idx int) {
 				p.where(c, t, op, lit, placement == "where-nested")
 			case "filter":
 				p.filter(c, t, op, lit)
+			case "when-list":
+				p.whenList(c, t, op, lit)
 			default:
 				p.when(c, t, op, lit, placement)
 			}
@@ -320,6 +322,76 @@ func (p c16) when(c *core.Ctx, t c16type, op, lit, placement string) {
 				c.Violate("when/hides-too-much/"+sig, "the condition %q is false and hides more than the guarded node\n%s", expr, wit)
 			}
 		}
+	}
+}
+
+// whenList: a when on a list holds or fails for each entry: exactly the entries whose own operand satisfies it are read.
+func (p c16) whenList(c *core.Ctx, t c16type, op, lit string) {
+	expr := "o" + op + t.xlit(lit)
+	yang := fmt.Sprintf("module m { namespace \"urn:m\"; prefix m; revision 2020-01-01; list g { when \"%s\"; key k; leaf k { type int32; } leaf o { %s } leaf p { type string; } } leaf q { type string; } }", expr, t.yang)
+	var mod *meta.Module
+	var err error
+	if c.Guard("load", func() { mod, err = parser.LoadModuleFromString(nil, yang) }) {
+		return
+	}
+	if err != nil {
+		c.Violate("when/load-error/when-list", "schema does not load: %v\n%s", err, yang)
+		return
+	}
+	// one entry per catalog value plus one without the operand
+	var entries []string
+	var want []string
+	for i, v := range t.values {
+		v := v
+		entries = append(entries, fmt.Sprintf("{\"k\":%d,\"o\":%s,\"p\":\"x\"}", i, jsonScalar(t, v)))
+		if t.truth(&v, op, lit) {
+			want = append(want, fmt.Sprint(i))
+		}
+	}
+	entries = append(entries, fmt.Sprintf("{\"k\":%d,\"p\":\"x\"}", len(t.values)))
+	doc := "{\"g\":[" + strings.Join(entries, ",") + "],\"q\":\"keep\"}"
+	c.Eval()
+	c.Shape("when-list/%s/%s/%d-of-%d", t.name, op, len(want), len(entries))
+	var got string
+	if c.Guard("read list with when", func() {
+		n, e := nodeutil.ReadJSON(doc)
+		if e != nil {
+			err = e
+			return
+		}
+		got, err = nodeutil.WriteJSON(node.NewBrowser(mod, n).Root())
+	}) {
+		return
+	}
+	sig := fmt.Sprintf("when-list/%s/%s", t.name, opName(op))
+	wit := fmt.Sprintf("schema: %s\ndata: %s\noutput: %s", yang, doc, got)
+	if err != nil {
+		c.Violate("when/error/"+sig, "read failed: %v\n%s", err, wit)
+		return
+	}
+	var top struct {
+		G []struct {
+			K int `json:"k"`
+		} `json:"g"`
+		Q string `json:"q"`
+	}
+	if jsonUnmarshal(got, &top) != nil {
+		c.Violate("when/error/"+sig, "output is not JSON\n%s", wit)
+		return
+	}
+	var gotKeys []string
+	for _, e := range top.G {
+		gotKeys = append(gotKeys, fmt.Sprint(e.K))
+	}
+	if strings.Join(gotKeys, ",") != strings.Join(want, ",") {
+		cls := "wrong-entries"
+		if len(gotKeys) > len(want) {
+			cls = "false-but-visible"
+		}
+		c.Violate("when/"+cls+"/"+sig, "entries read: %v, entries whose operand satisfies %q: %v\n%s", gotKeys, expr, want, wit)
+	}
+	if top.Q != "keep" {
+		c.Violate("when/hides-too-much/"+sig, "the sibling leaf disappeared\n%s", wit)
 	}
 }
 
